@@ -12,7 +12,7 @@ import (
 const geojsonPath = "github.com/tidwall/geojson"
 
 func init() {
-	register(&Rule{ID: "R19.delta", Props: []string{"C19", "C14", "C02", "C01"}, Floor: 12,
+	register(&Rule{ID: "R19.delta", Props: []string{"C19", "C14", "C02", "C01", "C12"}, Floor: 12,
 		Text: "effect tables of the bookkeeping in internal/collection: setFill(prev, obj) and Delete are evaluated abstractly in every situation of the two objects (every assignment of truth values to the conditions the code tests on them: nil, spatial, empty geometry, deadline), helpers inlined; per counter the effect is a linear form over symbolic measures (also when a net delta is accumulated in a local), per index the ordered operations. In every situation: what setFill does for the new object is independent of the previous one and vice versa; setFill's effect for the previous object equals Delete's; it is the exact inverse of the insertion of an object in the same situation; in an index the previous object is removed before the new one is entered; every secondary field of Collection is maintained",
 		Run:  ruleDelta})
 	register(&Rule{ID: "R19.who-writes", Props: []string{"C19"}, Floor: 8,
@@ -246,13 +246,51 @@ func ruleQuantiser(c *Ctx) {
 				return true
 			}
 			switch se.Sel.Name {
-			case "Insert", "Delete", "Search":
+			case "Insert", "Delete", "Search", "Replace":
 			default:
 				return true
 			}
 			n++
 			key := funcName(fn.Obj) + "→spatial." + se.Sel.Name
 			ok2 := false
+			// pairOK: both rectangle corners are locals defined only by rtreeRect/rtreeItem
+			pairOK := func(e0, e1 ast.Expr) bool {
+				a0, i0 := ast.Unparen(e0).(*ast.Ident)
+				a1, i1 := ast.Unparen(e1).(*ast.Ident)
+				if !i0 || !i1 {
+					return false
+				}
+				defs, bad := 0, 0
+				ast.Inspect(fn.Decl.Body, func(y ast.Node) bool {
+					as, ok := y.(*ast.AssignStmt)
+					if !ok {
+						return true
+					}
+					for _, l := range as.Lhs {
+						id, ok := l.(*ast.Ident)
+						if !ok || (info.ObjectOf(id) != info.ObjectOf(a0) && info.ObjectOf(id) != info.ObjectOf(a1)) {
+							continue
+						}
+						if len(as.Rhs) == 1 {
+							if c1, ok := ast.Unparen(as.Rhs[0]).(*ast.CallExpr); ok {
+								if g := callee(info, c1); g != nil && (g.Name() == "rtreeRect" || g.Name() == "rtreeItem") {
+									defs++
+									continue
+								}
+							}
+						}
+						bad++
+					}
+					return true
+				})
+				return defs >= 2 && bad == 0
+			}
+			if se.Sel.Name == "Replace" {
+				// Replace(oldMin, oldMax, old, newMin, newMax, new)
+				ok2 = len(call.Args) == 6 && pairOK(call.Args[0], call.Args[1]) && pairOK(call.Args[3], call.Args[4])
+				c.check(ok2, key, call.Pos(), "both rectangles come from rtreeRect/rtreeItem", "a rectangle given to the spatial index is not produced by rtreeRect/rtreeItem: index writer and reader quantise differently and boundary objects are lost")
+				return true
+			}
 			// form 1: spatial.Insert(rtreeItem(item)) — a single call argument producing (min,max,data)
 			if len(call.Args) >= 1 {
 				if c1, ok := ast.Unparen(call.Args[0]).(*ast.CallExpr); ok {
@@ -399,7 +437,11 @@ func ruleExactFilter(c *Ctx) {
 				return true
 			}
 			if g := callee(info, call); g != nil && g.Name() == "geoSearch" && len(call.Args) >= 1 {
-				if rc, ok := ast.Unparen(call.Args[0]).(*ast.CallExpr); ok {
+				arg := call.Args[0]
+				if id, ok := ast.Unparen(arg).(*ast.Ident); ok {
+					arg = resolveLocal(info, fn.Decl.Body, id) // bounds := q.Rect(); geoSearch(bounds, …)
+				}
+				if rc, ok := ast.Unparen(arg).(*ast.CallExpr); ok {
 					if se, ok := ast.Unparen(rc.Fun).(*ast.SelectorExpr); ok && se.Sel.Name == "Rect" {
 						if id, ok := ast.Unparen(se.X).(*ast.Ident); ok && info.ObjectOf(id) == qObj {
 							rectOK = true
